@@ -12,6 +12,7 @@ from symfc.utils.permutation_tools import (
     get_combinations,
 )
 from symfc.utils.solver_funcs import get_batch_slice
+from symfc.utils._verif_hooks import verif_int
 from symfc.utils.utils import get_indep_atoms_by_lat_trans
 from symfc.utils.utils_O4 import get_atomic_lat_trans_decompr_indices_O4
 
@@ -121,6 +122,7 @@ def compr_permutation_lat_trans_O4(
     # order = 3
     if n_batch is None:
         n_batch3 = 1 if natom <= 128 else int(round((natom / 128) ** 2))
+        n_batch3 = verif_int("SYMFC_VERIF_PERM_NBATCH", n_batch3)
     else:
         n_batch3 = n_batch
 
@@ -179,6 +181,7 @@ def compr_permutation_lat_trans_O4(
     # order = 4
     if n_batch is None:
         n_batch4 = 1 if natom <= 16 else int(round((natom / 16) ** 2))
+        n_batch4 = verif_int("SYMFC_VERIF_PERM_NBATCH", n_batch4)
     else:
         n_batch4 = n_batch
 
